@@ -707,7 +707,15 @@ class Visitor(ast.NodeVisitor):
             args = []  # type: List[Any]
             for arg_node in node.args:
                 if isinstance(arg_node, ast.Starred):
-                    args.extend(self.visit(node=arg_node))
+                    # Visit the value of the starred node as there is no value to be recomputed for the starred
+                    # node itself.
+                    starred_value = self.visit(node=arg_node.value)
+
+                    # Please see "NOTE ABOUT PLACEHOLDERS AND RE-COMPUTATION"
+                    if starred_value is PLACEHOLDER:
+                        args.append(PLACEHOLDER)
+                    else:
+                        args.extend(starred_value)
                 else:
                     args.append(self.visit(node=arg_node))
 
